@@ -107,6 +107,22 @@ def constants():
     t += "/-- the application numbers in the derivation paths of bip85's functions: (function, application) -/\n"
     t += "def BIP85_APPLICATIONS : List (String × Nat) := [(\"bip39\", 39), " + ", ".join(
         f"(\"{k}\", {v})" for k, v in apps.items()) + "]\n"
+    bounds = []
+    for fn, var, lo, hi in (("bytes_entropy_from_root_key", "num_bytes", "_MIN_BYTES", "_MAX_BYTES"),
+                            ("base64_password_from_root_key", "pwd_len", "_MIN_B64_LEN", "_MAX_B64_LEN"),
+                            ("base85_password_from_root_key", "pwd_len", "_MIN_B85_LEN", "_MAX_B85_LEN")):
+        if f"if not {lo} <= {var} <= {hi}:" not in _src(bip85, fn):
+            raise ValueError(f"bip85.{fn}: the bounds check has an unexpected shape")
+        bounds.append((fn, int(getattr(bip85, lo)), int(getattr(bip85, hi))))
+    for fn, cut in (("bytes_entropy_from_root_key", "return entropy[:num_bytes]"),
+                    ("base64_password_from_root_key", "return b64encode(entropy).decode('ascii')[:pwd_len]"),
+                    ("base85_password_from_root_key", "return b85encode(entropy).decode('ascii')[:pwd_len]"),
+                    ("wif_from_root_key", "return wif_from_prv_key(entropy[:32], network, compressed=True)"),
+                    ("xprv_from_root_key", "chain_code=entropy[:32], key=b'\\x00' + entropy[32:]")):
+        if cut not in _src(bip85, fn):
+            raise ValueError(f"bip85.{fn}: expected `{cut}`")
+    t += "/-- the inclusive bounds of bip85's sized applications: (function, minimum, maximum) -/\n"
+    t += "def BIP85_BOUNDS : List (String × Nat × Nat) := [" + ", ".join(f"(\"{f}\", {a}, {b})" for f, a, b in bounds) + "]\n"
     eb = bip85._ENTROPY_BYTES
     t += "/-- `bip85._ENTROPY_BYTES`: words -> entropy bytes -/\n"
     t += "def BIP85_ENTROPY_BYTES : List (Nat × Nat) := [" + ", ".join(f"({k}, {v})" for k, v in sorted(eb.items())) + "]\n"
@@ -124,6 +140,46 @@ def constants():
     if -1 in order or order != sorted(order) or "f'electrum_{version}'" not in src:
         raise ValueError("dispatch.all_seed_types_from_mnemonic: unexpected order / shape")
     t += f"/-- `dispatch._BIP39_WORD_COUNTS` -/\ndef BIP39_WORD_COUNTS : List Nat := {_nat_list(wc)}\n"
+    # Electrum's pre-2.0 codec: three words per 32-bit group, the 2nd and 3rd as offsets (old_mnemonic.mn_encode/decode)
+    src = _src(electrum, "old_mnemonic_from_hex_seed")
+    for frag in ("base = len(wordlist)", "group = int(hex_seed[8 * i:8 * i + 8], 16)", "first = group % base",
+                 "second = (group // base + first) % base", "third = (group // base // base + second) % base",
+                 "words += [wordlist[first], wordlist[second], wordlist[third]]", "if len(hex_seed) % 8:"):
+        if frag not in src:
+            raise ValueError(f"electrum.old_mnemonic_from_hex_seed: expected `{frag}`")
+    src = _src(electrum, "hex_seed_from_old_mnemonic")
+    for frag in ("base = len(_old_wordlist())", "for i in range(len(words) // 3):", "group = first",
+                 "group += base * ((second - first) % base)", "group += base * base * ((third - second) % base)",
+                 "hex_seed += f'{group:08x}'", "words[3 * i:3 * i + 3]"):
+        if frag not in src:
+            raise ValueError(f"electrum.hex_seed_from_old_mnemonic: expected `{frag}`")
+    m_old = re.search(r"return is_hex or \(uses_old_words and len\(words\) in \{(\d+), (\d+)\}\)", _src(electrum, "_is_old_mnemonic"))
+    if not m_old:
+        raise ValueError("electrum._is_old_mnemonic: unexpected word-count rule")
+    old_words = list(electrum._old_wordlist())
+    t += "/-- `len(electrum._old_wordlist())`: the base of the pre-2.0 codec; the word counts `_is_old_mnemonic` takes -/\n"
+    t += f"def OLD_BASE : Nat := {len(old_words)}\ndef OLD_WORD_COUNTS : List Nat := [{int(m_old.group(1))}, {int(m_old.group(2))}]\n"
+    # every shipped word list, as the loaders read it: (registry/language, number of words, SHA-256 of the words joined
+    # by "\n" in UTF-8).  Checked here, on the lists themselves: no duplicate, no empty word, no blank inside a word,
+    # every word NFKD-normal (what `WordLists.index` looks up).  A changed file changes this module.
+    import hashlib
+    import unicodedata
+    from btclib.mnemonic.mnemonic import WORDLISTS
+    rows = []
+    lists = [(f"bip39/{lang}", list(WORDLISTS.wordlist(lang))) for lang in WORDLISTS.languages]
+    lists += [(f"electrum/{lang}", list(electrum.ELECTRUM_WORDLISTS.wordlist(lang))) for lang in electrum.ELECTRUM_WORDLISTS.languages]
+    lists += [("electrum/old", old_words)]
+    for name, words in lists:
+        if len(set(words)) != len(words):
+            dup = sorted({w for w in words if words.count(w) > 1})[:3]
+            raise ValueError(f"word list {name}: duplicate words {dup}: word -> index is not a function")
+        bad = [w for w in words if not w or len(w.split()) != 1 or w != w.strip() or unicodedata.normalize("NFKD", w) != w]
+        if bad:
+            raise ValueError(f"word list {name}: words that are empty, hold a blank or are not NFKD-normal: {bad[:3]}")
+        rows.append((name, len(words), hashlib.sha256("\n".join(words).encode()).hexdigest()))
+    t += "/-- every shipped word list as loaded: (registry/language, words, SHA-256 of the \"\\n\"-joined words); the translator\n"
+    t += "    refuses a list with a duplicate, empty, blank-holding or non-NFKD word -/\n"
+    t += "def WORDLISTS : List (String × Nat × String) := [" + ",\n  ".join(f"(\"{n}\", {k}, \"{h}\")" for n, k, h in rows) + "]\n"
     return t
 
 
